@@ -34,7 +34,7 @@ TEXT = {
          "contract-based deductive verification (Verus contracts + lemmas; Kani for the IEEE axioms on the real Number impls)"),
  "C12": ("proof", "4.3", "Verus proves the real impl Add/Sub for &Quantity, Neg for Quantity and Unit::smaller_unit equal to add_spec/sub_spec; commutation / anti-commutation (same value in the same unit when sizes differ and not both zero; both zero => zero) are Verus lemmas over those specs with Kani-proved IEEE axioms.",
          "contract-based deductive verification (Verus contracts + lemmas; Kani for the IEEE axioms on the real Number impls)"),
- "C21": ("proof", "4.4", "Verus proves the real ffi::procedures::{assert, assert_eq} (2- and 3-argument forms) against the predicates of the statement: Continue iff the documented predicate holds, Break with the matching error otherwise. The final clause (a failing assertion aborts the input) is the Break => return Err arm in the VM loop, which is unverified glue.",
+ "C21": ("proof", "4.4", "Verus proves the real ffi::procedures::{assert, assert_eq} (2- and 3-argument forms) against the predicates of the statement: Continue iff the documented predicate holds, Break with the matching error otherwise; and the VM arm that calls a procedure (extracted at arm level): Break makes the run loop return an error, so no later statement of the input runs. The Quantity == / <= the predicates bottom out in are the verified ones of unit quantity.",
          "contract-based deductive verification (Verus) of the real assert / assert_eq bodies against spec predicates"),
  "C20": ("proof", "4.5", "Verus proves a taint-style contract on the real html_formatter.rs: every byte appended to HTML output is renderer-owned markup or came out of html_escape::encode_text.",
          "contract-based deductive verification (Verus): escaping/taint contract on HtmlFormatter::format_part and HtmlWriter::write"),
